@@ -20,7 +20,7 @@ def tag_str(t):
 # a tiny private sfnt builder: cmap (format 12) + GSUB with single (fmt 2) / alternate lookups.
 # Recipe: {"nglyphs": n, "cmap": {cp: gid}, "scripts": {tag: {"req": idx|None, "feats": [feature idx..]}},
 #          "features": [(tag, [lookup idx..])], "lookups": [("s", {gid: gid}) | ("t", {gid: [gid..]})]}
-# (tools/fontbuild.py of the framework was not available when this was written; see replay()/run()).
+# (fallback for a framework without tools/fontbuild.py; build_font() prefers fontbuild.build, both give the same results)
 
 def _coverage(gids):
     return struct.pack(">HH", 1, len(gids)) + b"".join(struct.pack(">H", g) for g in gids)
@@ -80,7 +80,36 @@ def _gsub(recipe):
     return struct.pack(">HHHHH", 1, 0, o1, o2, o3) + script_list + feature_list + lookup_list
 
 
+def to_fontbuild(recipe):
+    """the same recipe in the vocabulary of tools/fontbuild.py"""
+    lookups = []
+    for kind, m in recipe["lookups"]:
+        gids = sorted(m)
+        if kind == "s":
+            lookups.append({"type": 1, "flag": 0, "subtables": [{"format": 2, "coverage": gids, "subst": [m[g] for g in gids]}]})
+        else:
+            lookups.append({"type": 3, "flag": 0, "subtables": [{"coverage": gids, "alternates": [list(m[g]) for g in gids]}]})
+    scripts = [{"tag": tag_str(st), "default": {"required": s.get("req"), "features": list(s["feats"])}, "langs": []}
+               for st, s in sorted(recipe["scripts"].items())]
+    features = [{"tag": tag_str(t), "lookups": list(ls)} for t, ls in recipe["features"]]
+    return {"num_glyphs": recipe["nglyphs"], "cmap": dict(recipe["cmap"]),
+            "gsub": {"scripts": scripts, "features": features, "lookups": lookups}}
+
+
+try:
+    import fontbuild as _fontbuild
+except ImportError:                      # framework without tools/fontbuild.py: private builder below
+    _fontbuild = None
+
+
 def build_font(recipe):
+    """tools/fontbuild.py when the framework has it (VERIF_C14_MINIFONT=1 forces the private builder)."""
+    if _fontbuild is not None and not os.environ.get("VERIF_C14_MINIFONT"):
+        return _fontbuild.build(to_fontbuild(recipe))
+    return build_font_mini(recipe)
+
+
+def build_font_mini(recipe):
     n = recipe["nglyphs"]
     head = struct.pack(">HHiIIHHqqhhhhHHhhh", 1, 0, 0x10000, 0, 0x5F0F3CF5, 0, 1000, 0, 0, 0, 0, 1000, 1000, 0, 8, 2, 0, 0)
     hhea = struct.pack(">HHhhhHhhhhhhhhhhhH", 1, 0, 800, -200, 0, 600, 0, 0, 600, 1, 0, 0, 0, 0, 0, 0, 0, n)
@@ -619,7 +648,7 @@ def classify_compile(ln, out):
         if nonglobal: ks.append(f"{kind}:own-bits")
         if len(nonglobal) != len(feats): ks.append(f"{kind}:global-bit")
         if any(bin(int(f[6])).count("1") == 8 for f in nonglobal): ks.append(f"{kind}:8-bit-cap")
-        nl = len(segs[1].split()) - 2 + len(segs[2].split()) - 2
+        nl = len([t for t in (segs[1] + ' ' + segs[2]).split() if ':' in t])
         if nl > 0: ks.append(f"{kind}:lookups>0")
         if kind == "compile":
             infos = [i.split(":") for i in segs[3].split()[1:]]
@@ -783,7 +812,7 @@ def e2e_search(ctx, shim, r):
                             f = [(t1, v1, *r1), (t2, v2, *r2)]
                             reqs.append(shape_request("F", facts, lk, f, text5)); meta.append((text5, f))
     # random longer feature lists
-    for _ in range(ctx.budget(5000, 60000)):
+    for _ in range(ctx.budget(10000, 200000)):
         f = []
         for _ in range(r.range(1, 6)):
             s, e = r.choice(R2 + [(r.below(6), r.below(7))])
@@ -858,25 +887,25 @@ def run(ctx):
     shim = vlib.build_harness()
 
     r = ctx.rng("new")
-    cases = new_cases(r, ctx.budget(5000, 100000))
+    cases = new_cases(r, ctx.budget(10000, 300000))
     ctx.correspond("feature-new", lines=[new_line(c) for c in cases], classify=classify_new)
     new_search(ctx, shim, cases)
 
     r = ctx.rng("parse")
-    pcases = parse_cases(r, ctx.budget(40000, 600000))
+    pcases = parse_cases(r, ctx.budget(100000, 1500000))
     ctx.correspond("feature-parse", lines=[parse_line(s) for s, _ in pcases], classify=classify_parse)
     parse_search(ctx, shim, pcases)
 
     r = ctx.rng("setmasks")
-    sm = setmasks_lines(r, ctx.budget(40000, 600000))
+    sm = setmasks_lines(r, ctx.budget(100000, 1500000))
     ctx.correspond("set-masks", lines=sm, classify=classify_setmasks)
     setmasks_search(ctx, shim, sm)
 
     r = ctx.rng("map")
-    units = font_units(ctx, shim, r, ctx.budget(60, 230), ctx.budget(60, 400))
-    ctx.correspond("map-compile", groups=compile_groups(r, units, ctx.budget(40, 150)), classify=classify_compile)
-    ctx.correspond("plan-info", groups=plan_groups(r, units, ctx.budget(25, 100)), classify=classify_compile)
-    ctx.correspond("feature-shape", groups=shape_groups(r, units, ctx.budget(100, 500)), classify=classify_shape)
+    units = font_units(ctx, shim, r, ctx.budget(100, 230), ctx.budget(120, 600))
+    ctx.correspond("map-compile", groups=compile_groups(r, units, ctx.budget(60, 300)), classify=classify_compile)
+    ctx.correspond("plan-info", groups=plan_groups(r, units, ctx.budget(40, 250)), classify=classify_compile)
+    ctx.correspond("feature-shape", groups=shape_groups(r, units, ctx.budget(150, 800)), classify=classify_shape)
 
     e2e_search(ctx, shim, ctx.rng("e2e"))
 
